@@ -182,3 +182,16 @@ def sign_with_draws(key, digest, draws):
         return bits.ecmath.sign(key, digest)
     finally:
         secrets.randbelow = real
+
+
+def key_with_draws(draws):
+    """Replay harness for bits.keys.key with a scripted random source (randbelow(n) returns draw % n)."""
+    import secrets
+    import bits.keys
+    it = iter(list(draws))
+    real = secrets.randbelow
+    secrets.randbelow = lambda n: next(it, 1) % n
+    try:
+        return bits.keys.key()
+    finally:
+        secrets.randbelow = real
